@@ -95,7 +95,6 @@ def txtRoundTrip (kind mode : String) (dt : Nat) : P (Except String (Container Ã
     | some r => pure (.ok (dvLayout (encList dt v), lines, dvLayout (encList dt r)))
   | "dv", "exp" =>
     let v â† ratList
-    if v.isEmpty then pure (.error "EXC") else
     let lines := expWrite pr v
     let r := expRead rd lines
     pure (.ok (dvLayout (encList dt v), lines,
@@ -118,7 +117,11 @@ def txtRoundTrip (kind mode : String) (dt : Nat) : P (Except String (Container Ã
     match svMtxRead rd lines with
     | none => pure (.error "ABORT")
     | some (rn, ri, rv) =>
-      if ri.isEmpty then pure (.error "ABORT") else
+      -- `SparseVector(rows, val, ind, false)` from two size-0 vectors owns two size-0 arrays
+      if ri.isEmpty then
+        pure (.ok (svLayout n idx (encList dt v), lines,
+          { scalarIndex := [rn, 0, 0, min rn 1000, 1], scalarDt := [], elements := [[]], indices := [[]] }))
+      else
       pure (.ok (svLayout n idx (encList dt v), lines, svLayout rn ri (encList dt rv)))
   | "dm", "mtx" =>
     let r â† nat; let c â† nat; let v â† ratList
@@ -198,6 +201,14 @@ def handle : P String := do
     match (â† txtRoundTrip kind mode dt) with
     | .error e => pure e
     | .ok (c, lines, r) => pure s!"L {showDump dt c} T {showText lines} {showDump dt r} EQ {eqFlag c r}"
+  | "dfio" =>
+    let sh â† tok; let bf â† tok
+    let shared := if sh = "-" then [] else unhex sh.toList
+    let buffer := if bf = "-" then [] else unhex bf.toList
+    let file := dfWrite shared buffer
+    match dfRead file [] [] with
+    | none => pure "ABORT"
+    | some (s2, b2) => pure s!"F {showHex file} S {showHex s2} B {showHex b2}"
   | "cp" => cpRun false
   | "cpx" => do let _ â† nat; cpRun true
   | _ => throw s!"unknown op {op}"
